@@ -154,7 +154,7 @@ func c12random(r *rng.R) []resp.Value {
 		case 0:
 			prog = append(prog, cmd("PING"))
 		case 1:
-			prog = append(prog, cmd("PING", v()+"p"))
+			prog = append(prog, cmd("PING", rng.Pick(r, []string{v() + "p", v(), ""})))
 		case 2:
 			prog = append(prog, cmd("ECHO", v()))
 		case 3:
